@@ -55,3 +55,17 @@ LEVEL["C12"] = ("Symbolic shape comparison: for every composite matcher and ever
                 "is increasing in weight and decreasing in length before the scorer may claim quality support.")
 NOTE["C12"] = ("Assumes term scores >= 0 and positive model parameters. Not decided: tightness, float rounding, that stored "
                "block statistics are true aggregates (partly C10-R4).")
+LEVEL["C10"] = ("Sibling-agreement rules between every on-disk writer and its reader in the posting path: block info "
+                "tuple vs _goto unpacking, last-block marker, data tuple indices, delta/compression/compact-weight cases "
+                "applied and undone under the same condition; W3TermInfo struct layout vs pack order, unpack indices and "
+                "the four direct-offset readers (offsets computed from the format string); Format.encode headers vs every "
+                "decoder per concrete class; must-update analysis of the term statistics; resolved calls on typed receivers.")
+NOTE["C10"] = ("Not decided: value equality itself, float32 rounding, zlib. Constant sizes are folded from whoosh/system.py "
+               "with struct.calcsize on the literal formats.")
+LEVEL["C14"] = ("Sibling agreement of the filter predicate across the collecting and the counting path, len(results) "
+                "routing through the outermost match-set-changing collector, sort-then-slice order with (key, docnum) "
+                "pairs, collector stacking order, cache-value independence from per-search parameters, and sortedness "
+                "typestate of the collapse lists.")
+NOTE["C14"] = ("Not decided: ResultsPage arithmetic, facet key values, column- vs posting-backed categorizer agreement "
+               "(value-level). CollapseCollector's count path is a known finding (two entries). Wrapping collectors "
+               "capturing child.matcher before replace() (design C14-R4) is not armed: no witness found.")
